@@ -5,6 +5,7 @@ import (
 	"encoding/json"
 	"fmt"
 	"math"
+	"reflect"
 	"sort"
 	"strconv"
 	"strings"
@@ -25,10 +26,13 @@ func init() {
 		Assumptions: []string{"default configuration only: a Descriptor does not record the ProtoCompatible switches, so descriptor-driven decoding of the other configurations' bytes is not claimed",
 			"negative values in flat-encoded fields narrower than 64 bits are excluded (documented caveat of FieldTypeFlatInt)"},
 		Work: func(c *mc.Ctx) {
+			if c.Owns(0) {
+				c13BQTimestamp(c)
+			}
 			enumItemsCfg(c, ref.Universe(c.Tier), func(*ref.T) []ref.Cfg { return []ref.Cfg{{}} }, c13Case)
 		},
 		Post: func(a *mc.Agg) []string {
-			return needDims(a, "pos:top", "pos:field", "pos:elem", "pos:mapval", "pos:mapkey", "desc:plenc-roundtrip", "desc:json-roundtrip")
+			return needDims(a, "pos:top", "pos:field", "pos:elem", "pos:mapval", "pos:mapkey", "desc:plenc-roundtrip", "desc:json-roundtrip", "bq-timestamp")
 		},
 	})
 }
@@ -319,3 +323,117 @@ func c13Case(c *mc.Ctx, cfg ref.Cfg, it ref.Item, v ref.V, vs string, undoc stri
 }
 
 var _ = sort.Strings
+
+// c13BQTimestamp: the shipped BQTimestampCodec (a flat microsecond count whose Descriptor says
+// FlatInt + Timestamp) registered under the tag name the README uses; rendered through the
+// Descriptor it must give the RFC 3339 form of the instant at microsecond precision, whichever
+// way the Descriptor was obtained.
+func c13BQTimestamp(c *mc.Ctx) {
+	type inner struct {
+		T time.Time `plenc:"1,flattime"`
+		N int       `plenc:"2"`
+	}
+	type outer struct {
+		T time.Time        `plenc:"1,flattime" json:"stamp"`
+		I inner            `plenc:"2"`
+		P *inner           `plenc:"3"`
+		L []inner          `plenc:"4"`
+		M map[string]inner `plenc:"5"`
+		Z string           `plenc:"9"`
+	}
+	times := []time.Time{time.Unix(1600000000, 123456000).UTC(), time.Unix(0, 1000).UTC(), time.Unix(-1, 999999000).UTC(), time.Unix(253402300799, 999999000).UTC(),
+		time.Unix(1, 0).UTC(), time.Date(1, 1, 1, 0, 0, 0, 1000, time.UTC), time.Unix(1700000000, 999000).In(time.FixedZone("x", 3600))}
+	for ti, tm := range times {
+		if !c.Begin(fmt.Sprintf(`{"set":"bq-timestamp","time":%q}`, tm.Format(time.RFC3339Nano))) {
+			continue
+		}
+		c.AddEvals(1)
+		c.Count("states", 1)
+		c.Dim("bq-timestamp")
+		c.NonTrivial()
+		pre := "bq-timestamp|"
+		c.Guard(pre, func() {
+			p := NewPlenc(ref.Cfg{})
+			p.RegisterCodecWithTag(reflect.TypeOf(time.Time{}), "flattime", plenccodec.BQTimestampCodec{})
+			in := inner{T: tm, N: ti}
+			v := outer{T: tm, I: in, P: &in, L: []inner{in, {N: 1}}, M: map[string]inner{"k": in}, Z: "end"}
+			data, err := p.Marshal(nil, &v)
+			if err != nil {
+				c.Violation(pre+"marshal-error", err.Error())
+				return
+			}
+			var back outer
+			if err := p.Unmarshal(data, &back); err != nil || !back.T.Equal(tm.Truncate(time.Microsecond)) {
+				c.Violation(pre+"typed-decode-differs", fmt.Sprintf("%v %v", back.T, err))
+				return
+			}
+			codec, err := p.CodecForType(reflect.TypeOf(outer{}))
+			if err != nil {
+				c.Violation(pre+"codec-error", err.Error())
+				return
+			}
+			d := codec.Descriptor()
+			if len(d.Elements) < 1 || d.Elements[0].Type != plenccodec.FieldTypeFlatInt || d.Elements[0].LogicalType != plenccodec.LogicalTypeTimestamp || d.Elements[0].Name != "stamp" {
+				c.Violation(pre+"descriptor-of-timestamp-field", fmt.Sprintf("%+v", d.Elements[0]))
+				return
+			}
+			descs := map[string]plenccodec.Descriptor{"direct": d}
+			if pd, err := p.Marshal(nil, &d); err == nil {
+				var d2 plenccodec.Descriptor
+				if p.Unmarshal(pd, &d2) == nil {
+					descs["via-plenc"] = d2
+				}
+			}
+			if jd, err := json.Marshal(&d); err == nil {
+				var d3 plenccodec.Descriptor
+				if json.Unmarshal(jd, &d3) == nil {
+					descs["via-json"] = d3
+				}
+			}
+			if len(descs) != 3 {
+				c.Violation(pre+"descriptor-not-serialisable", "")
+				return
+			}
+			want := tm.UTC().Truncate(time.Microsecond)
+			var first string
+			for how, dd := range descs {
+				var j plenccodec.JSONOutput
+				if err := dd.Read(&j, data); err != nil {
+					c.Violation(pre+"descriptor-read-error:"+how, err.Error())
+					return
+				}
+				doc := j.Done()
+				var parsed struct {
+					Stamp string `json:"stamp"`
+					I, P  struct{ T string }
+					L     []struct{ T string }
+					M     map[string]struct{ T string }
+					Z     string
+				}
+				if err := json.Unmarshal(doc, &parsed); err != nil {
+					c.Violation(pre+"invalid-json:"+how, err.Error()+": "+string(doc))
+					return
+				}
+				for where, s := range map[string]string{"top": parsed.Stamp, "nested": parsed.I.T, "pointer": parsed.P.T, "slice": parsed.L[0].T, "map": parsed.M["k"].T} {
+					got, err := time.Parse(time.RFC3339Nano, s)
+					if err != nil || !got.Equal(want) {
+						c.Violation(pre+"timestamp-rendered-wrongly:"+where, fmt.Sprintf("descriptor %s: %q for %s (%v)", how, s, want.Format(time.RFC3339Nano), err))
+						return
+					}
+				}
+				if parsed.Z != "end" || len(parsed.L) != 2 {
+					c.Violation(pre+"surrounding-fields-wrong:"+how, string(doc))
+					return
+				}
+				if first == "" {
+					first = string(doc)
+				} else if first != string(doc) {
+					c.Violation(pre+"output-differs-with-restored-descriptor:"+how, fmt.Sprintf("%s vs %s", first, doc))
+					return
+				}
+			}
+			c.Ops(6)
+			c.Outcome("ok")
+		})
+	}
+}
